@@ -223,3 +223,63 @@ Definition same_line (t1 t2 : token) : bool :=
 Definition glued (t1 t2 : token) : bool :=
   same_line t1 t2 && negb (pushes_newline (kind_of t2) (has_block t2) (kind_of t1)).
 Definition Known_same_line_statements (ts : list token) : bool := any_tokens (adjacent glued None) (fun _ => false) ts.
+
+(* ---------------------------------------------------------------- C13: multi-line comments, re-chunking of output lines *)
+(* Known class (F-C13a): a comment that spans several lines; its continuation lines are indented again on every run *)
+Definition Known_multiline_comment (ts : list token) : bool := existsb contains_nl (all_comments ts).
+
+(* Re-chunking: the chunk list that describes the LINES join_chunks emitted for `cs` -- for every emitted line the pieces
+   that went into it (same type, same indent, without their newline), then one newline chunk; squeezed empty lines and
+   ignored newlines are gone.  This is the line structure a second run starts from (its trivia newlines are the line
+   breaks of the first run's output). *)
+Definition strip_nl (s : text) : text := filter (fun c => negb (c =? NL)%N) s.
+
+Record rstate := mkR { r_st : jstate; r_cur : list chunk; r_groups : list (list chunk) }.
+
+Definition rechunk_piece (o : options) (c : chunk) (is_eol last : bool) (r : rstate) (p : text) : rstate :=
+  let st := r_st r in
+  let ignored := match c_ty c with
+                 | None => text_eqb p [NL] && negb (match j_line st with [] => true | _ => false end)
+                           && (byte_len (j_line st) <=? o_label_margin o)
+                 | _ => false
+                 end in
+  let st' := join_piece o (c_ty c) is_eol last st p in
+  let cur := if ignored then r_cur r
+             else match strip_nl p with [] => r_cur r | q => r_cur r ++ [mkChunk (c_ty c) (c_indent c) q] end in
+  if (negb ignored && contains_nl p) || last
+  then mkR st' [] (if List.length (j_out st) <? List.length (j_out st') then r_groups r ++ [cur] else r_groups r)
+  else mkR st' cur (r_groups r).
+
+Fixpoint rechunk_loop (o : options) (cs : list chunk) (r : rstate) : rstate :=
+  match cs with
+  | [] => r
+  | c :: rest =>
+      let r0 := mkR (set_indent (r_st r) (c_indent c)) (r_cur r) (r_groups r) in
+      rechunk_loop o rest (fold_left (rechunk_piece o c (next_is_nl rest) (is_last rest)) (split_inclusive (c_str c)) r0)
+  end.
+
+Fixpoint join_groups (gs : list (list chunk)) : list chunk :=
+  match gs with
+  | [] => []
+  | [g] => g
+  | g :: rest => g ++ mkChunk None 0 [NL] :: join_groups rest
+  end.
+
+Definition rechunk (cs : list chunk) (o : options) : list chunk :=
+  join_groups (r_groups (rechunk_loop o cs (mkR j_init [] []))).
+
+(* the chunk lists for which re-chunking is meaningful: no empty chunk; labels and comments on one line; a plain chunk
+   has a newline at most as its last character *)
+Fixpoint nl_only_last (s : text) : bool :=
+  match s with
+  | [] => true
+  | [c] => true
+  | c :: r => negb (c =? NL)%N && nl_only_last r
+  end.
+Definition stable_chunk (c : chunk) : bool :=
+  negb (match c_str c with [] => true | _ => false end) &&
+  match c_ty c with
+  | None => nl_only_last (c_str c)
+  | Some _ => negb (contains_nl (c_str c))
+  end.
+Definition stable_chunks (cs : list chunk) : bool := forallb stable_chunk cs.
